@@ -26,7 +26,7 @@ INTRINSICS_N = ["max", "min"]
 F08_INTRINSICS = {"erf", "gamma", "shiftl", "shiftr", "shifta"}
 
 NUM_NAMES = ["x", "y", "z1", "aB1", "a1e3", "endx", "iff", "data1", "real_x", "do10i", "format_",
-             "xx", "Val", "e1", "d2", "to", "thenx"]
+             "xx", "Val", "e1", "d2", "to", "thenx", "this_is_a_sixty_three_character_long_fortran_variable_name_abcd"]
 INT_NAMES = ["i", "j", "k", "n", "m", "ii", "idx"]
 LOG_NAMES = ["l1", "flag", "lg", "ok"]
 CHR_NAMES = ["c1", "str_", "ch", "msg"]
@@ -38,7 +38,7 @@ COMP_NAMES = ["v", "w", "cnt", "nxt"]
 TYPE_NAMES = ["t1", "tt", "vec_t"]
 MOD_NAMES = ["m1", "mod_a", "util", "m_b", "Mod_C"]
 UNIT_NAMES = ["prog", "main1", "calc", "unit_a", "solve", "init_x", "wrk", "helper", "fx", "gy", "Calc2", "MAIN_x", "doIt3"]
-CONSTRUCT_NAMES = ["nm", "outer", "lp1", "blk1", "sel", "Lp2", "OUTER2"]
+CONSTRUCT_NAMES = ["nm", "outer", "lp1", "blk1", "sel", "Lp2", "OUTER2", "a_rather_long_construct_name_with_exactly_fifty_ch"]
 DEF_OPS = [".myop.", ".x.", ".plus.", ".inv."]
 
 INT_LITS = ["1", "2", "0", "10", "42", "3_8", "7_ik", "100"]
